@@ -265,6 +265,13 @@ func (e *Exec) schedule() *G {
 	if len(rs) == 1 || !e.schedFork {
 		return rs[0]
 	}
+	if e.schedChoiceCap > 0 {
+		// verifSchedFirst: only the first few "who runs next" choices are explored
+		if e.schedChoices >= e.schedChoiceCap {
+			return rs[0]
+		}
+		e.schedChoices++
+	}
 	k := e.pick(len(rs), "sched")
 	return rs[k]
 }
@@ -993,6 +1000,9 @@ func (e *Exec) execSlice(g *G, f *Frame, in *ssa.Slice) bool {
 	}
 	switch xv := x.(type) {
 	case SliceV:
+		if xv.Len == nil { // the zero SliceV (nil slice)
+			xv.Len, xv.Cap, xv.Off = zero, zero, zero
+		}
 		if hi == nil {
 			hi = xv.Len
 		}
